@@ -34,6 +34,9 @@ type alt struct {
 	cost int
 	set  []kv
 	rich bool
+	// sparse: a size-boundary value of >= 64 KiB: the prefix walks visit only the cut points within 2 bytes of
+	// every length field of the encoding, the first 5 and the last 8 (see sparseCuts), not every byte
+	sparse bool
 }
 
 type slot struct {
@@ -233,7 +236,73 @@ func many(k, n int) [][]byte {
 }
 
 // certificate list of opaque<1..2^24-1> entries
-func certListAlts(p string) []alt {
+// carryLengths: values at which a 24-bit length field carries into its top byte (2^16, 2^17) and their
+// neighbours. A length field that sits `off` bytes of framing above an opaque element reaches L when the
+// element has L-off bytes.
+var carryLengths = []int{65535, 65536, 65537, 65538, 65539, 131071, 131072, 131073}
+
+// carrySizes: every element size that puts one of the length fields (given by its framing offset above the
+// element) on one of carryLengths; ascending, without duplicates.
+func carrySizes(offsets ...int) []int {
+	seen := map[int]bool{}
+	var out []int
+	for _, L := range carryLengths {
+		for _, o := range offsets {
+			if n := L - o; n > 0 && !seen[n] {
+				seen[n] = true
+				out = append(out, n)
+			}
+		}
+	}
+	for i := range out {
+		for j := i + 1; j < len(out); j++ {
+			if out[j] < out[i] {
+				out[i], out[j] = out[j], out[i]
+			}
+		}
+	}
+	return out
+}
+
+func sparseAlt(al alt) alt { al.sparse = true; return al }
+
+// addAlts appends the alternatives whose name is not in the list yet (a size that the base alphabet already
+// has keeps its base form, with the full prefix walk).
+func addAlts(list []alt, more ...alt) []alt {
+	for _, m := range more {
+		dup := false
+		for _, l := range list {
+			dup = dup || l.name == m.name
+		}
+		if !dup {
+			list = append(list, m)
+		}
+	}
+	return list
+}
+
+// certListAlts: perEntry = framing bytes of one list entry (3: uint24 cert length; TLS 1.3: +2 for the
+// entry's extensions length), aboveList = bytes between the handshake header and the list's own uint24
+// length inclusive of that length (3; TLS 1.3: +1 for the empty request context).
+func certListAlts(p string, perEntry, aboveList int) []alt {
+	out := certListBase(p)
+	// one certificate: its own length, the list length and the header length each on every carry value
+	for _, n := range carrySizes(0, perEntry, perEntry+aboveList) {
+		out = addAlts(out, sparseAlt(a(fmt.Sprintf("[%dB]", n), In, 0, p, [][]byte{bz(n, 24)})))
+	}
+	// two certificates: the list length and the header length on every carry value; the first certificate is
+	// 30000 bytes below 2^16+4 and exactly 2^16 bytes (its own length field carries) above
+	for _, n := range carrySizes(2*perEntry, 2*perEntry+aboveList) {
+		first := 30000
+		if n > 100000 {
+			first = 65536
+		}
+		out = addAlts(out, sparseAlt(a(fmt.Sprintf("[%dB,%dB]", first, n-first), In, 0, p, [][]byte{bz(first, 24), bz(n-first, 25)})))
+	}
+	return out
+}
+
+func certListBase(p string) []alt {
 	return []alt{
 		a("[1B]", In, 0, p, [][]byte{bz(1, 21)}),
 		a("none", In, 0, p, [][]byte(nil)),
@@ -586,14 +655,14 @@ func allSpecs() []*spec {
 
 	// Certificate, TLS <= 1.2 (RFC 5246 §7.4.2)
 	specs = append(specs, &spec{name: "certificateMsg", strictPrefix: true, slots: []slot{
-		{"certificates", certListAlts("certificates")},
+		{"certificates", certListAlts("certificates", 3, 3)},
 	}})
 
 	// Certificate, TLS 1.3 (RFC 8446 §4.4.2)
 	specs = append(specs, &spec{name: "certificateMsgTLS13", capacity: extCap, strictPrefix: true,
 		domain: leafExtDomain("certificates", "ocspStaple", "scts"),
 		slots: []slot{
-			{"certificates", certListAlts("certificate.Certificate")},
+			{"certificates", certListAlts("certificate.Certificate", 5, 4)},
 			{"ocspStaple", ocspAlts("ocspStapling", "certificate.OCSPStaple")},
 			{"scts", sctAlts("scts", "certificate.SignedCertificateTimestamps")},
 		}})
@@ -621,6 +690,13 @@ func allSpecs() []*spec {
 			a("empty", Amb, 0, "response", []byte(nil)), // OCSPResponse<1..2^24-1>
 		}},
 	}})
+	{
+		// size boundaries: the response length and the header length (status_type + uint24 = 4 bytes above) on every carry value
+		sp := specs[len(specs)-1]
+		for _, n := range carrySizes(0, 4) {
+			sp.slots[0].alts = addAlts(sp.slots[0].alts, sparseAlt(a(fmt.Sprintf("%dB", n), In, 0, "response", bz(n, 1))))
+		}
+	}
 
 	// ClientKeyExchange: header + opaque body of exactly the announced length
 	specs = append(specs, &spec{name: "clientKeyExchangeMsg", strictPrefix: true, slots: []slot{
@@ -715,7 +791,7 @@ func allSpecs() []*spec {
 			a("empty", Amb, 0, "masterSecret", []byte(nil)),
 			a("65536B", Out, 0, "masterSecret", bz(65536, 1)),
 		}},
-		{"certificates", certListAlts("certificates")},
+		{"certificates", certListAlts("certificates", 3, 3)},
 		boolSlot("usedOldKey", 0),
 	}})
 
@@ -732,7 +808,7 @@ func allSpecs() []*spec {
 				a("empty", Amb, 0, "resumptionSecret", []byte(nil)),
 				a("256B", Out, 0, "resumptionSecret", bz(256, 1)),
 			}},
-			{"certificates", certListAlts("certificate.Certificate")},
+			{"certificates", certListAlts("certificate.Certificate", 5, 4)},
 			{"ocspStaple", ocspAlts("", "certificate.OCSPStaple")},
 			{"scts", sctAlts("", "certificate.SignedCertificateTimestamps")},
 		}})
